@@ -689,3 +689,39 @@ theorem second_plan_empty {fs0 fs' : FS} {r : FPath} {src : FPath → Option SEn
       simp [h1, upToDate, h2]
 
 end Rj
+
+namespace Rj
+open FS
+
+theorem mem_of_lookup {β : Type} (l : List (FPath × β)) (q : FPath) (v : β) (h : l.lookup q = some v) : (q, v) ∈ l := by
+  induction l with
+  | nil => simp at h
+  | cons e rest ih =>
+    obtain ⟨k, w⟩ := e
+    by_cases hk : q = k
+    · subst hk; simp [List.lookup] at h; subst h; simp
+    · have hb : (q == k) = false := by simpa using hk
+      simp only [List.lookup_cons, hb] at h
+      exact List.mem_cons_of_mem _ (ih h)
+
+/-- a folder that still holds an entry — listed or hidden by the filters — cannot be removed -/
+theorem hasChild_of_child (fs : FS) (P : FPath) (c : Comp) (n : Node) (h : fs.get (P ++ [c]) = some n) :
+    fs.hasChild P = true := by
+  unfold FS.hasChild FS.childrenOf
+  have hne : P ++ [c] ≠ [] := by simp
+  simp only [FS.get, hne, ↓reduceIte] at h
+  have hm := mem_of_lookup _ _ _ h
+  simp only [Bool.not_eq_true', List.isEmpty_eq_false_iff, ne_eq, List.filter_eq_nil_iff]
+  intro hall
+  have := hall (P ++ [c], n) hm
+  simp at this
+
+theorem rmdir_nonempty_fails (fs : FS) (P : FPath) (c : Comp) (n : Node) (h : fs.get (P ++ [c]) = some n) (fs' : FS) :
+    fs.rmdir P ≠ .ok fs' := by
+  intro hr
+  obtain ⟨-, hr⟩ := withAnc_ok hr
+  split at hr
+  · simp [hasChild_of_child fs P c n h] at hr
+  · simp at hr
+
+end Rj
